@@ -389,6 +389,10 @@ impl<T: Engine> FftFilterFloat<T> {
 
 impl<T: Engine> crate::block::BlockEOF for FftFilterFloat<T> {
     fn eof(&mut self) -> bool {
+        // Nobody will ever read the output: nothing more to do.
+        if crate::stream::StreamWait::closed(&self.dst) {
+            return true;
+        }
         // The outer input having ended is not enough: samples may still be
         // parked in the inner streams, on their way in or out.
         if !self.src.eof() {
